@@ -100,6 +100,15 @@ pub fn gen_scenario(seed: u64, fixtures: &[String]) -> Scenario {
         };
         docs.push(d);
     }
+    // same-length twins: another revision of document 0 with exactly as many bytes (a blank
+    // turned into a line break, an escape hatch defused) - whatever tells revisions apart by
+    // address and length confuses the two
+    if ndocs > 1 && !flat_mode && rng.chance(0.3) {
+        if let Some(v) = gen::same_length_variant(&docs[0], &mut rng) {
+            let j = 1 + rng.below(ndocs - 1);
+            docs[j] = v;
+        }
+    }
     // ---- scripts
     // mostly 1-4 threads; sometimes a crowd (more threads than any small fixed table of
     // per-thread slots), each with a single call
@@ -125,7 +134,8 @@ pub fn gen_scenario(seed: u64, fixtures: &[String]) -> Scenario {
                 _ => Op::Width,
             };
             let nest = if matches!(op, Op::Inspect) && rng.chance(0.6) { Some((rng.below(ndocs), if rng.chance(0.5) { cfg } else { gen_cfg(&mut rng) })) } else { None };
-            let call = Call { op, doc, cfg, feed_prev: false, via_clone: rng.chance(0.4), nest };
+            let own_source = matches!(op, Op::Source | Op::Inspect | Op::Range { .. }) && rng.chance(0.3);
+            let call = Call { op, doc, cfg, feed_prev: false, via_clone: rng.chance(0.4), nest, own_source };
             match rng.below(10) {
                 // the same operation twice in a row
                 0 | 1 => {
